@@ -35,6 +35,11 @@ def gen_chain(rng):
             files[path] = PyFile()
         return files[path]
     upath = wsgen.join(dirs[depth], "test_use.py")
+    # requests of the name textually ABOVE an override in the same file (a per-file shortcut in the reference
+    # search would hand the override's own parameter the answer computed for them)
+    above = rng.random() < 0.4
+    if above and "same" in places:
+        pf(upath).test("test_above", params=("foo",))
     for j, pl in enumerate(places):
         last = (j == len(places) - 1)
         params = () if last else ("foo",)
@@ -49,6 +54,8 @@ def gen_chain(rng):
                 wsgen.rand_fixture(rng, pf(wsgen.join(dirs[lvl], mod + ".py")), "foo", params=params, multiline=ml)
                 pf(cpath).add("from .%s import *" % mod)
             else:
+                if above and not last:
+                    wsgen.rand_fixture(rng, pf(cpath), "uses_above", params=("foo",))
                 wsgen.rand_fixture(rng, pf(cpath), "foo", params=params, multiline=ml)
         elif pl == "plugin":
             wsgen.rand_fixture(rng, pf("plug/plugmod.py"), "foo", params=params, multiline=ml)
@@ -117,6 +124,51 @@ def check_names(run, cases, ia, ma):
                 v.violation(f"{cname}-{k[1]}", msg, f"# {msg}\n" + cases.replay_text(cname))
 
 
+def check_refs(run, cases, ia, ma):
+    """references from the function name concern the overriding fixture: its own self-named parameter is NOT among
+    them, and IS among the references of the definition that go-to-definition on the parameter lands on"""
+    v = run.verdict
+    by_case = {}
+    for k, q in cases.queries.items():
+        by_case.setdefault(k[0], []).append(k)
+    n = 0
+    for cname, keys in by_case.items():
+        refs, gotos = {}, {}
+        for k in keys:
+            q = cases.queries[k]
+            if q[1] == "refs":
+                refs[(q[2], int(q[3]))] = (parse_list(ia.get(k, "[]")), k)
+            elif q[1] == "goto":
+                gotos[(q[2], int(q[3]), int(q[4]))] = ia.get(k)
+        for (f, ln), (lst, k) in refs.items():
+            name = cases.queries[k][4]
+            own = [u for u in lst if u.startswith("%s:%d:" % (f, ln)) and u.endswith(":" + name)]
+            if own:
+                n += 1
+                msg = (f"case {cname}: the references of the overriding fixture {name} at {f}:{ln} list its own parameter {own[0]} — "
+                       f"that parameter requests the next definition outward")
+                v.violation(f"{cname}-{k[1]}-ownparam", msg, f"# {msg}\n" + cases.replay_text(cname))
+        # the parameter is a reference of the definition navigation lands on
+        for (f, l0, col), tgt in gotos.items():
+            if not tgt or tgt == "none":
+                continue
+            parts = tgt.rsplit(":", 3)
+            if len(parts) != 4:
+                continue
+            tf, tl = parts[0], int(parts[1])
+            if (tf, tl) not in refs or (f, l0 + 1) not in refs:
+                continue            # only positions on definition lines (the self-named parameters)
+            n += 1
+            lst, k = refs[(tf, tl)]
+            if not any(u.startswith("%s:%d:" % (f, l0 + 1)) for u in lst):
+                if core.agree(ia.get(k, ""), ma.get(k, "")):
+                    continue        # a recorded finding of C04 (the model mirrors it); C04 judges it
+                msg = (f"case {cname}: go-to-definition at {f}:{l0}:{col} lands on {tgt}, but the references of that definition "
+                       f"do not list the parameter: {lst}")
+                v.violation(f"{cname}-{k[1]}-paramref", msg, f"# {msg}\n" + cases.replay_text(cname))
+    run.stats["override_reference_checks"] = n
+
+
 def run(tier, seed):
     r = Run(PROP, MODULE, THEOREMS, tier, seed)
     if not r.prepare():
@@ -144,6 +196,7 @@ def run(tier, seed):
     r.correspond(cases, ia, ma)
     check_spec(r, cases, ia, ma, sp, kinds=("goto",))
     check_names(r, cases, ia, ma)
+    check_refs(r, cases, ia, ma)
     return r.finish(RULE)
 
 
